@@ -380,12 +380,24 @@ pub fn case_from_raw(cfg: CaseCfg, spec: ModelSpec, raw: RawCase) -> ProblemCase
         let m = spec.m();
         // occasionally (1/16) many more samples, (1/32) many more right-hand sides than usual
         let n = if n_pick & 0xF == 0xF { m + cfg.max_n + pick(n_pick, 4 * cfg.max_n) } else { m + pick(n_pick, cfg.max_n.max(m) - m + 1) };
-        let s = if s_pick % 3 == 0 { 1 } else if s_pick & 0x1F == 0x1F && cfg.max_s > 1 { cfg.max_s + 1 + pick(s_pick, 8) } else { 1 + pick(s_pick, cfg.max_s) };
+        // (1/256: very many right-hand sides, 32..101 — more than 16 per worker of a small pool)
+        let s = if s_pick % 3 == 0 {
+            1
+        } else if s_pick & 0x1F == 0x1F && cfg.max_s > 1 {
+            if (s_pick >> 5) & 7 == 7 {
+                32 + pick(s_pick.rotate_left(8), 70)
+            } else {
+                cfg.max_s + 1 + pick(s_pick, 8)
+            }
+        } else {
+            1 + pick(s_pick, cfg.max_s)
+        };
         let unit = spec.unit();
         let x: Vec<f64> = x_from_raw(xkind, n, &us).into_iter().map(|v| v * unit).collect();
         let alpha = alpha_tame(&spec, &us[8..], if cfg.collisions { [1u8, 2, 2, 0, 0, 0, 0, 0][pick(collide, 8)] } else { 0 });
         let mrhs = s > 1 || flags & 0x101 == 0x101;
-        let y: Vec<Vec<f64>> = (0..s).map(|c| (0..n).map(|i| ys[(c * 40 + i) % ys.len()]).collect()).collect();
+        // the raw material repeats after 5 columns: later columns are shifted so that they differ
+        let y: Vec<Vec<f64>> = (0..s).map(|c| (0..n).map(|i| ys[(c * 40 + i) % ys.len()] + 0.013 * (c / 5) as f64).collect()).collect();
         let w = if cfg.weights { weights_from_raw(wclass, n, &us[16..]) } else { None };
         let eps = if cfg.eps { eps_from_raw(epsclass, epsu, flags & 2 == 2) } else { None };
         ProblemCase {
@@ -446,6 +458,17 @@ pub fn pool_size_for(par: bool, n: usize, p: usize, s: usize) -> Option<usize> {
     par.then(|| [2usize, 3, 1, 4, 16, 5, 7, 2][(n + 3 * p + 5 * s) % 8])
 }
 
+/// class label of the number of right-hand sides (exact up to 14, then a range)
+pub fn s_label(s: usize) -> String {
+    if s <= 14 {
+        format!("S={s}")
+    } else if s < 32 {
+        "S=15..31".to_string()
+    } else {
+        "S=32..101".to_string()
+    }
+}
+
 /// class labels shared by the evidence of all checks
 pub fn regime_of(spec: &ModelSpec, n: usize, s: usize) -> Vec<String> {
     let mut v = vec![];
@@ -457,7 +480,9 @@ pub fn regime_of(spec: &ModelSpec, n: usize, s: usize) -> Vec<String> {
     } else if n > 100 {
         v.push("N>100".to_string());
     }
-    if s > 8 {
+    if s >= 32 {
+        v.push("S>=32".to_string());
+    } else if s > 8 {
         v.push("S>8".to_string());
     }
     if spec.m() > 6 {
@@ -586,7 +611,9 @@ pub struct FamCfg {
     pub weights: bool,
     /// heteroscedastic noise with weights = k / sigma_i (C19)
     pub calibrated_weights: bool,
-    /// also generate family 4 (rate + damped cosine sharing the rate + offset; not certified for C05)
+    /// also generate families 4..8 (4: rate + damped cosine sharing the rate + offset; 5: one Gaussian
+    /// peak, M < P; 6: two Gaussian peaks + offset; 7: Lorentzian on a linear background; 8: sine +
+    /// offset) — used by the statistics checks, not certified for C05
     pub extra_families: bool,
     /// a quarter of the weighted instances get weights spanning 1e-3..1e3
     pub wide_weights: bool,
@@ -605,7 +632,7 @@ pub fn family_from_raw(cfg: FamCfg, us: &[u16], seed: u64) -> FamCase {
         cur += 1;
         v
     };
-    let family = 1 + (u() * if cfg.extra_families { 4.0 } else { 3.0 }) as u8;
+    let family = 1 + (u() * if cfg.extra_families { 8.0 } else { 3.0 }) as u8;
     let un = u();
     let n = if cfg.long_data && (un * 65536.0) as u32 % 64 == 63 { 1024 + (un * 4077.0) as usize } else { cfg.min_n + (un * (cfg.max_n - cfg.min_n + 1) as f64) as usize };
     let (spec, alpha_true, x): (ModelSpec, Vec<f64>, Vec<f64>) = match family {
@@ -640,6 +667,38 @@ pub fn family_from_raw(cfg: FamCfg, us: &[u16], seed: u64) -> FamCase {
             let terms = vec![Term { kind: Kind::Rate, args: vec![0] }, Term { kind: Kind::DampedCos, args: vec![0, 1] }, Term { kind: Kind::One, args: vec![] }];
             let x = (0..n).map(|i| 10.0 * i as f64 / (n - 1) as f64).collect();
             (ModelSpec { p: 2, terms, unit_exp: 0 }, vec![k, b], x)
+        }
+        5 => {
+            // a single Gaussian peak: fewer basis functions than nonlinear parameters (M=1, P=2)
+            let mu = 3.0 + 4.0 * u();
+            let sg = 0.7 + 1.3 * u();
+            let terms = vec![Term { kind: Kind::Gauss, args: vec![0, 1] }];
+            let x = (0..n).map(|i| 10.0 * i as f64 / (n - 1) as f64).collect();
+            (ModelSpec { p: 2, terms, unit_exp: 0 }, vec![mu, sg], x)
+        }
+        6 => {
+            // two separated Gaussian peaks + offset (M=3, P=4)
+            let (m1, m2) = (2.0 + 2.0 * u(), 6.0 + 2.0 * u());
+            let (s1, s2) = (0.5 + 0.7 * u(), 0.5 + 0.7 * u());
+            let terms = vec![Term { kind: Kind::Gauss, args: vec![0, 1] }, Term { kind: Kind::Gauss, args: vec![2, 3] }, Term { kind: Kind::One, args: vec![] }];
+            let x = (0..n).map(|i| 10.0 * i as f64 / (n - 1) as f64).collect();
+            (ModelSpec { p: 4, terms, unit_exp: 0 }, vec![m1, s1, m2, s2], x)
+        }
+        7 => {
+            // Lorentzian line on a linear background (M=3, P=2); the invariant x term comes first
+            let mu = 3.0 + 4.0 * u();
+            let g = 0.4 + 0.8 * u();
+            let terms = vec![Term { kind: Kind::X, args: vec![] }, Term { kind: Kind::Lorentz, args: vec![0, 1] }, Term { kind: Kind::One, args: vec![] }];
+            let x = (0..n).map(|i| 10.0 * i as f64 / (n - 1) as f64).collect();
+            (ModelSpec { p: 2, terms, unit_exp: 0 }, vec![mu, g], x)
+        }
+        8 => {
+            // sine with unknown frequency and phase + offset (M=2, P=2)
+            let om = 0.8 + 1.7 * u();
+            let ph = -1.0 + 2.0 * u();
+            let terms = vec![Term { kind: Kind::One, args: vec![] }, Term { kind: Kind::Sine, args: vec![0, 1] }];
+            let x = (0..n).map(|i| 10.0 * i as f64 / (n - 1) as f64).collect();
+            (ModelSpec { p: 2, terms, unit_exp: 0 }, vec![om, ph], x)
         }
         _ => {
             let tau = 0.5 + 4.5 * u();
@@ -707,7 +766,7 @@ pub fn family_from_raw(cfg: FamCfg, us: &[u16], seed: u64) -> FamCase {
     }
     // units of x (see ModelSpec::unit_exp): drawn last so that the instances are otherwise
     // the same as without units
-    if cfg.units && u() < 0.15 {
+    if cfg.units && u() < 0.15 && case.spec.unit_consistent() {
         let e = [-9i8, -6, -3, 3, 6, 9, -9, 9][(u() * 8.0) as usize % 8];
         case.spec.unit_exp = e;
         let unit = case.spec.unit();
